@@ -6,7 +6,7 @@
    never), any interleaving, spurious futex returns included.  A nested apply is another instance of the same model
    on its own record (the work function is opaque), so the statements hold at every nesting depth. *)
 From Coq Require Import ZArith Bool List.
-From Verif Require Import Word Conc Gen_consts Gen_fields Gen_apply Apply Apply_proofs.
+From Verif Require Import Word Conc Gen_consts Gen_fields Gen_apply Apply Apply_proofs ApplyR ApplyR_proofs.
 Import ListNotations.
 Local Open Scope Z_scope.
 
@@ -107,6 +107,19 @@ Theorem C10_model_uses_thread_automaton : forall n T c s t e s',
   gstep n T c s t e = Some s' -> tstep n (t =? c) (pcs s t) e = Some (pcs s' t).
 Proof. exact gstep_tstep. Qed.
 Print Assumptions C10_model_uses_thread_automaton.
+
+(* -- replay of whole recorded rounds on the GLOBAL model (Model/ApplyR.v, lib/props/c10.py): whatever action lists,
+      preferred order and window the scheduler is given, it only takes steps of Apply.gstep, so the state whose words and
+      ghost fields a replay reports is reachable and every theorem above applies to it; and the executable invariant
+      inv_b that the replay evaluates on the states it passes through is true on every reachable state (a FALSE would
+      be a concrete state contradicting the proof's reading of the model's ghost bookkeeping) -- *)
+Theorem C10_replay_reach : forall n T c w chk tids qs ord,
+  reach n T c (x_st (sched n T c (S (length ord)) w chk tids (init_state n T c) qs ord 0 0 (-1))).
+Proof. exact replay_reach. Qed.
+Print Assumptions C10_replay_reach.
+Theorem C10_inv_b_reach : forall n T c tids s, valid_params n T -> reach n T c s -> inv_b n T c tids s = true.
+Proof. exact inv_b_reach. Qed.
+Print Assumptions C10_inv_b_reach.
 
 (* non-vacuity: n = 2, T = 2, caller 1, helper 2.  The caller runs index 0, finds nothing left, subtracts (todo 2 -> 1),
    waits and sleeps in futex_wait; the helper runs index 1, brings da_todo to 0, signals (UINT32_MAX -> 0), wakes the
